@@ -6,6 +6,7 @@ import FemtoVerif.Proofs.Good
 import FemtoVerif.Proofs.WriteLemmas
 import FemtoVerif.Proofs.Rot
 import FemtoVerif.Proofs.Vars
+import FemtoVerif.Proofs.Loaded
 import FemtoVerif.Spec.WF
 import FemtoVerif.Gen.Data
 
@@ -532,6 +533,40 @@ theorem shipped_headers_var_free : ∀ h ∈ Femto.Gen.headers, headerVarFree h.
 example : scanVars (flattenStmts (session { header := Femto.Gen.header_uwe }
     [.dvar ["K"], .rep 2 [.forr "k" 3 [.dwell (some 1)]], .forr "j" 2 [.dwell (some 1)]]).1) [] = true :=
   session_vars_declared _ _ (by decide)
+
+/-! ### sub-programs: every call is preceded by a load -/
+
+/-- **Every called sub-program was loaded before (calls to unloaded programs are refused).**  In program order every
+`FARCALL`, `PROGRAM n BUFFEREDRUN` and `REMOVEPROGRAM` of the written file names a program that an earlier `PROGRAM n LOAD`
+brought in and that no `REMOVEPROGRAM` in between took out (the scan `scanLoaded` behind `WF.callsLoaded` succeeds) — for every
+configuration and every sequence of operations (loads, calls, buffered calls, removes, `farcall_list`, at any nesting inside
+loops, rotation blocks and the user's own try / except), wherever an operation was rejected or the user's code raised.
+Hypothesis `KeysAgree`: the compiler's bookkeeping (case-sensitive stem of the file name) and the controller's (lower-cased
+base name without the last extension) tell the file names used in the session apart in the same way; without it the
+statement is false (`calls_loaded_needs_keys_agree` below). -/
+theorem session_calls_loaded (cfg : Cfg) (ops : List Op) (hh : ∀ i ∈ cfg.header, noLdInstr i = true)
+    (hU : KeysAgree (pathsOps ops)) : (scanLoaded (flattenStmts (session cfg ops).1) []).isSome = true := by
+  obtain ⟨L, h⟩ := session_calls_loaded_aux cfg ops hh hU
+  simp only [ldEnd] at h
+  simp [h]
+
+/-- the shipped headers load, call and remove nothing (hypothesis of `session_calls_loaded`) -/
+theorem shipped_headers_load_free : ∀ h ∈ Femto.Gen.headers, ∀ i ∈ h.2.2, noLdInstr i = true := by decide
+
+/-- **the hypothesis cannot be dropped**: two file names that differ only in case are two programs for the compiler and one
+for the controller; after `load A, load a, remove A` the compiler still accepts a call of `a`, which the controller no
+longer has.  (The generator of the check does not produce such names; recorded in DESIGN.md 11.5.) -/
+theorem calls_loaded_needs_keys_agree :
+    (scanLoaded (flattenStmts (session { header := Femto.Gen.header_uwe }
+      [.load "A.pgm" 2, .load "a.pgm" 2, .remove "A.pgm" 2, .farcall "a.pgm"]).1) []).isSome = false := by
+  decide +kernel
+
+/-- non-vacuity: names in different folders, with and without directory, a rejected call, a call inside a loop inside the
+user's try / except, a `farcall_list`; the hypothesis holds and the scan succeeds -/
+example : (scanLoaded (flattenStmts (session { header := Femto.Gen.header_uwe }
+      [.load "sub/a.pgm" 2, .farcall "b.pgm", .attempt [.rep 3 [.farcall "a.pgm", .raise]], .farcallList [("c.pgm", 2), ("d.pgm", 3)],
+       .buffered "a.pgm" 2, .remove "other/a.pgm" 2, .load "b.pgm" 3]).1) []).isSome = true :=
+  session_calls_loaded _ _ (by decide) (by decide +kernel)
 
 /-! ### the shipped headers -/
 
